@@ -197,7 +197,7 @@ func ruleC17(c *Ctx) {
 	c.count("C17-R1/stores-scanned", nStores)
 	c.floor("C17-R1/stores-scanned", 150)
 	c.count("C17-R1/provider-effects", nProvider)
-	c.floor("C17-R1/provider-effects", 3)
+	c.floor("C17-R1/provider-effects", 1) // at least the cache store sp.signingContext = ctx; how many further effects there are depends on how SigningContext is split up
 
 	inputsUnmodified(c, "C17-R5", spT)
 
